@@ -90,7 +90,7 @@ type vEntry struct {
 
 func vSteps() int {
 	if zzverif.Thorough() {
-		return 5
+		return 4
 	}
 	return 3
 }
